@@ -847,8 +847,13 @@ class FlatSamplerCache:
 
     def get_flat_sampler(self, *args, **kwargs):
         """Get or create the flattened sampler for these arguments."""
-        # Simple caching based on argument signature
-        args_sig = (len(args), tuple(kwargs.keys()))
+        # The flat sampler is a Jaxpr staged for these arguments: it is only valid
+        # for arguments of the same structure, shapes and dtypes.
+        leaves, treedef = jtu.tree_flatten((args, kwargs))
+        args_sig = (
+            treedef,
+            tuple((jnp.shape(leaf), jnp.result_type(leaf)) for leaf in leaves),
+        )
         if self._cached_args_signature != args_sig:
             keyful_with_shape = self.config.get_keyful_sampler_with_shape()
             flat_sampler, _ = self._make_flat(keyful_with_shape)(
